@@ -413,7 +413,7 @@ def c3_external_ints(fb, rep):
             else:
                 g = G.guards_of(f, set(f.blocks), b)
                 val = lambda v: (lambda t: ('v', v) if t.get('k') == 'var' and t.get('id') == a.get('id') else None)
-                ok = G.excluded_under(f, b, val(-1)) and G.excluded_under(f, b, val(-200000)) and not G.excluded_under(f, b, val(0))
+                ok = G.excluded_under(f, b, val(-1)) and G.excluded_under(f, b, val(-200000)) and not any(G.excluded_under(f, b, val(v_)) for v_ in (0, 1, 50, 99, 100, 150))
                 why = 'external value; guards %s' % g
         rep.ob(clause, 'K12 range', '%s: half-move clock writer #%d passes a value known to be >= 0' % (f.sname, k + 1), ok, R.site(f, e), why, f.sname)
     # other writers of the field
